@@ -23,6 +23,10 @@ fn elem<G: Grp>(rng: &mut StdRng, pool: &Pool, tag: &str) -> (G, Fr) {
         return (G::rep(rng, p, tag), k);
     }
 }
+/// the result as the LIBRARY normalises it: its raw encoding (None for the identity, whose encoding is not specified)
+fn enc_obs<G: Grp>(r: &G) -> Value {
+    if r.is_zero_() { none() } else { some(b(&r.enc("raw"))) }
+}
 fn zrep<G: Grp>(rng: &mut StdRng) -> G {
     let t = pick_ztag(rng);
     G::rep(rng, G::zero(), t)
@@ -76,7 +80,7 @@ fn group_round<G: Grp>(rng: &mut StdRng, pool: &Pool, out: &mut Out, k: u64, foc
     if focus != "mul" && (focus != "eq" || k % 4 == 0) {
     out.call(opn, json!({"G": g, "a": a.jac(), "b": bb.jac(), "ka": b(&sa), "kb": b(&sb), "nodl": nodl}), || {
         let r = if opn == "g.add" { a + bb } else { a - bb };
-        outs! {"out" => r.jac(), "isz" => Value::Bool(r.is_zero_())}
+        outs! {"out" => r.jac(), "isz" => Value::Bool(r.is_zero_()), "enc" => enc_obs(&r)}
     });
     }
     if focus != "mul" {
@@ -92,9 +96,9 @@ fn group_round<G: Grp>(rng: &mut StdRng, pool: &Pool, out: &mut Out, k: u64, foc
     };
     match sel {
         0 => {
-            out.call("g.neg", json!({"G": g, "a": a.jac()}), || outs! {"out" => (-a).jac()});
+            out.call("g.neg", json!({"G": g, "a": a.jac()}), || { let r = -a; outs! {"out" => r.jac(), "enc" => enc_obs(&r)} });
             let z = zrep::<G>(rng);
-            out.call("g.neg", json!({"G": g, "a": z.jac()}), || outs! {"out" => (-z).jac()});
+            out.call("g.neg", json!({"G": g, "a": z.jac()}), || { let r = -z; outs! {"out" => r.jac(), "enc" => enc_obs(&r)} });
         }
         1 => {
             let (p, _) = any_elem::<G>(rng, pool);
@@ -127,7 +131,7 @@ fn group_round<G: Grp>(rng: &mut StdRng, pool: &Pool, out: &mut Out, k: u64, foc
             let opm = if rng.gen() { "g.mul" } else { "g.rmul" };
             out.call(opm, json!({"G": g, "a": p.jac(), "k": b(&ss)}), || {
                 let r = if opm == "g.mul" { p * s } else { G::rmul(s, p) };
-                outs! {"out" => r.jac(), "isz" => Value::Bool(r.is_zero_())}
+                outs! {"out" => r.jac(), "isz" => Value::Bool(r.is_zero_()), "enc" => enc_obs(&r)}
             });
         }
         _ => {
@@ -163,16 +167,152 @@ pub fn run_group(a: &Args, out: &mut Out) {
     let pool = load_pool(&a.pool, "Fr");
     let mut rng = rng_from(a.seed, "group");
     if a.focus == "mul" {
+        // sweep: scalars whose CANONICAL limbs come from {0, 1, 2^63, 2^64-1, r_i, r_i +- 1} (quick: one in eight, rotating with the seed)
+        let (p1, p2) = (G1::one() * rand_fr(&mut rng), G2::one() * rand_fr(&mut rng));
+        for (i, v) in canon_patterns(&r_modulus()).iter().enumerate() {
+            if (i as u64 + a.seed) % (if a.tier == "thorough" { 2 } else { 8 }) != 0 { continue; }
+            let s = Fr::from_slice(v).unwrap();
+            let ss = s.to_slice();
+            if i % 5 == 0 {
+                out.call("g.rmul", json!({"G": "G2", "a": p2.jac(), "k": b(&ss)}), || { let r = s * p2; outs! {"out" => r.jac(), "isz" => Value::Bool(r.is_zero_()), "enc" => enc_obs(&r)} });
+            } else {
+                out.call("g.mul", json!({"G": "G1", "a": p1.jac(), "k": b(&ss)}), || { let r = p1 * s; outs! {"out" => r.jac(), "isz" => Value::Bool(r.is_zero_()), "enc" => enc_obs(&r)} });
+            }
+        }
         // sweep: every scalar whose Montgomery representation is a tiny integer or has a single non-zero limb
         let (p1, p2) = (G1::one() * rand_fr(&mut rng), G2::one() * rand_fr(&mut rng));
         for (i, v) in pool.lo.iter().enumerate() {
             let s = Fr::from_slice(v).unwrap();
             let ss = s.to_slice();
-            out.call("g.mul", json!({"G": "G1", "a": p1.jac(), "k": b(&ss)}), || { let r = p1 * s; outs! {"out" => r.jac(), "isz" => Value::Bool(r.is_zero_())} });
+            out.call("g.mul", json!({"G": "G1", "a": p1.jac(), "k": b(&ss)}), || { let r = p1 * s; outs! {"out" => r.jac(), "isz" => Value::Bool(r.is_zero_()), "enc" => enc_obs(&r)} });
             if i % 3 == 0 {
-                out.call("g.rmul", json!({"G": "G2", "a": p2.jac(), "k": b(&ss)}), || { let r = s * p2; outs! {"out" => r.jac(), "isz" => Value::Bool(r.is_zero_())} });
+                out.call("g.rmul", json!({"G": "G2", "a": p2.jac(), "k": b(&ss)}), || { let r = s * p2; outs! {"out" => r.jac(), "isz" => Value::Bool(r.is_zero_()), "enc" => enc_obs(&r)} });
             }
         }
+    }
+    {
+        // arithmetic boundary families pushed through the group API: crafted G1 representatives whose normalisation performs a
+        // designated Montgomery product (unknown discrete logarithm: the specification abstracts the triple itself), and
+        // representatives whose 1/z (G1) or Re z (G2) has a designated pattern
+        let poolq = load_pool(&a.pool, "Fq");
+        let thorough = a.tier == "thorough";
+        let crafted = crafted_points(&poolq, a.seed, if thorough { 600 } else { 240 });
+        let zs = inv_pattern_zs(&poolq, a.seed, if thorough { 900 } else { 400 });
+        let mut reps1: Vec<G1> = crafted;
+        // affine points one of whose coordinates is itself a pattern value (doubling squares / triples / doubles the coordinates)
+        reps1.extend(coord_points(&poolq, a.seed, if thorough { 400 } else { 160 }));
+        reps1.extend(sq_coord_points(&poolq, a.seed, if thorough { 200 } else { 70 }));
+        let eqp = eq_crafted(&poolq, a.seed, if thorough { 600 } else { 240 });
+        let mut reps2: Vec<G2> = Vec::new();
+        for (i, z) in zs.into_iter().enumerate() {
+            if i % 3 == 2 {
+                let mut n = G2::one() * rand_fr(&mut rng);
+                n.normalize();
+                reps2.push(g2_scale(n, Fq2::new(z.inverse().unwrap(), if i % 2 == 0 { Fq::zero() } else { rand_fq_nonzero(&mut rng) })));
+            } else {
+                let mut n = G1::one() * rand_fr(&mut rng);
+                n.normalize();
+                reps1.push(g1_scale(n, z));
+            }
+        }
+        // G2: z = 1 / (a + b u) with both components Montgomery-boundary pool values (Fq2 inversion and squaring add, subtract and
+        // double these components)
+        for i in 0..(if thorough { 500 } else { 150 }) {
+            let (pa, pb) = (Fq::from_slice(&poolq.vals[(i * 97 + 13 * a.seed as usize) % poolq.vals.len()]).unwrap(), Fq::from_slice(&poolq.vals[(i * 61 + 5) % poolq.vals.len()]).unwrap());
+            if let Some(l) = fq2_inv(Fq2::new(pa, pb)) {
+                let mut n = G2::one() * rand_fr(&mut rng);
+                n.normalize();
+                reps2.push(g2_scale(n, if i % 3 == 0 { Fq2::new(pa, pb) } else { l }));
+            }
+        }
+        fn through<G: Grp>(rng: &mut StdRng, pool: &Pool, out: &mut Out, focus: &str, p: G) {
+            let g = G::NAME;
+            match focus {
+                "mul" => {
+                    let s = pick_scalar(rng, pool);
+                    let ss = s.to_slice();
+                    out.call("g.mul", json!({"G": g, "a": p.jac(), "k": b(&ss)}), || { let r = p * s; outs! {"out" => r.jac(), "isz" => Value::Bool(r.is_zero_()), "enc" => enc_obs(&r)} });
+                }
+                "eq" => {
+                    out.call("g.normalize", json!({"G": g, "a": p.jac()}), || { let mut q = p; q.normalize_(); outs! {"out" => q.jac(), "isz" => Value::Bool(q.is_zero_())} });
+                    let mut n = p;
+                    n.normalize_();
+                    out.call("g.eq", json!({"G": g, "a": p.jac(), "b": n.jac()}), || outs! {"out" => Value::Bool(p == n), "rev" => Value::Bool(n == p), "refl" => Value::Bool(p == p)});
+                }
+                _ => {
+                    let tb = pick_tag(rng);
+                    let (bb, kb) = elem::<G>(rng, pool, tb);
+                    let zero = [0u8; 32];
+                    let opn = ["g.add", "g.sub"][rng.gen_range(0..2)];
+                    let (x, y) = if rng.gen() { (p, bb) } else { (bb, p) };
+                    out.call(opn, json!({"G": g, "a": x.jac(), "b": y.jac(), "ka": b(&zero), "kb": b(&kb.to_slice()), "nodl": true}), || {
+                        let r = if opn == "g.add" { x + y } else { x - y };
+                        outs! {"out" => r.jac(), "isz" => Value::Bool(r.is_zero_()), "enc" => enc_obs(&r)}
+                    });
+                    out.call("g.neg", json!({"G": g, "a": p.jac()}), || { let r = -p; outs! {"out" => r.jac(), "enc" => enc_obs(&r)} });
+                    // the same value added to itself (doubling) and subtracted from itself
+                    let opn = if rng.gen_range(0..4) == 0 { "g.sub" } else { "g.add" };
+                    out.call(opn, json!({"G": g, "a": p.jac(), "b": p.jac(), "ka": b(&zero), "kb": b(&zero), "nodl": true}), || {
+                        let r = if opn == "g.add" { p + p } else { p - p };
+                        outs! {"out" => r.jac(), "isz" => Value::Bool(r.is_zero_()), "enc" => enc_obs(&r)}
+                    });
+                }
+            }
+        }
+        let f = if a.focus == "mul" || a.focus == "eq" { a.focus.as_str() } else { "law" };
+        // two representatives of one point whose comparison / addition multiplies a designated operand pair
+        for (p, q) in eqp {
+            let zero = [0u8; 32];
+            if f == "eq" {
+                out.call("g.eq", json!({"G": "G1", "a": p.jac(), "b": q.jac()}), || outs! {"out" => Value::Bool(p == q), "rev" => Value::Bool(q == p), "refl" => Value::Bool(q == q)});
+            } else if f == "law" {
+                let opn = ["g.add", "g.sub"][rng.gen_range(0..2)];
+                let (x, y) = if rng.gen() { (p, q) } else { (q, p) };
+                out.call(opn, json!({"G": "G1", "a": x.jac(), "b": y.jac(), "ka": b(&zero), "kb": b(&zero), "nodl": true}), || {
+                    let r = if opn == "g.add" { x + y } else { x - y };
+                    outs! {"out" => r.jac(), "isz" => Value::Bool(r.is_zero_()), "enc" => enc_obs(&r)}
+                });
+            }
+        }
+        for p in reps1 { through::<G1>(&mut rng, &pool, out, f, p); }
+        for p in reps2 { through::<G2>(&mut rng, &pool, out, f, p); }
+        // one representative of EVERY rescaling class, with the small scalars (mul), an identity on either side (law), or normalised (eq)
+        fn class_sweep<G: Grp>(rng: &mut StdRng, pool: &Pool, out: &mut Out, focus: &str) {
+            let g = G::NAME;
+            for sel in 0..G::NSEL {
+                let (n, kn) = elem::<G>(rng, pool, "A");
+                let p = G::rep_class(rng, n, sel);
+                match focus {
+                    "mul" => {
+                        for s in [Fr::one(), Fr::one() + Fr::one(), -Fr::one(), Fr::zero()] {
+                            let ss = s.to_slice();
+                            let opm = if sel % 2 == 0 { "g.mul" } else { "g.rmul" };
+                            out.call(opm, json!({"G": g, "a": p.jac(), "k": b(&ss)}), || {
+                                let r = if opm == "g.mul" { p * s } else { G::rmul(s, p) };
+                                outs! {"out" => r.jac(), "isz" => Value::Bool(r.is_zero_()), "enc" => enc_obs(&r)}
+                            });
+                        }
+                    }
+                    "eq" => {
+                        out.call("g.normalize", json!({"G": g, "a": p.jac()}), || { let mut q = p; q.normalize_(); outs! {"out" => q.jac(), "isz" => Value::Bool(q.is_zero_())} });
+                        out.call("g.eq", json!({"G": g, "a": p.jac(), "b": n.jac()}), || outs! {"out" => Value::Bool(p == n), "rev" => Value::Bool(n == p), "refl" => Value::Bool(p == p)});
+                    }
+                    _ => {
+                        let z = zrep::<G>(rng);
+                        let (sk, zk) = (kn.to_slice(), [0u8; 32]);
+                        for (x, y, kx, ky) in [(p, z, &sk[..], &zk[..]), (z, p, &zk[..], &sk[..]), (p, n, &sk[..], &sk[..])] {
+                            let opn = ["g.add", "g.sub"][rng.gen_range(0..2)];
+                            out.call(opn, json!({"G": g, "a": x.jac(), "b": y.jac(), "ka": b(kx), "kb": b(ky), "nodl": false}), || {
+                                let r = if opn == "g.add" { x + y } else { x - y };
+                                outs! {"out" => r.jac(), "isz" => Value::Bool(r.is_zero_()), "enc" => enc_obs(&r)}
+                            });
+                        }
+                    }
+                }
+            }
+        }
+        class_sweep::<G1>(&mut rng, &pool, out, f);
+        class_sweep::<G2>(&mut rng, &pool, out, f);
     }
     if a.focus == "eq" {
         // sweep: every sparse-Montgomery pool value as z (G1), as the real or the imaginary part of z (G2), through normalize
@@ -362,6 +502,42 @@ pub fn run_encode(a: &Args, out: &mut Out) {
             pn.normalize();
             let r = g1_scale(pn, v.inverse().unwrap());
             let fmt = fmts[m % 3];
+            out.call("g.encode", json!({"G": "G1", "a": r.jac(), "fmt": fmt, "k": b(&[0u8; 32]), "negated": false, "anchor": false}), || {
+                let e = r.enc(fmt);
+                let d = <G1 as Grp>::dec(&e, fmt);
+                outs! {"out" => b(&e), "dec" => opt_jac(d), "deceq" => Value::Bool(d.map(|x| x == r).unwrap_or(false))}
+            });
+        }
+    }
+    {
+        let poolq = load_pool(&a.pool, "Fq");
+        let thorough = a.tier == "thorough";
+        let fmts = ["raw", "unc", "cmp"];
+        let mut reps: Vec<G1> = crafted_points(&poolq, a.seed, if thorough { 600 } else { 200 });
+        reps.extend(coord_points(&poolq, a.seed, if thorough { 300 } else { 100 }));
+        reps.extend(sq_coord_points(&poolq, a.seed, if thorough { 200 } else { 40 }));
+        // G2 representatives with 1/z = a + b u, both components Montgomery-boundary pool values
+        for i in 0..(if thorough { 600 } else { 200 }) {
+            let (pa, pb) = (Fq::from_slice(&poolq.vals[(i * 89 + 7 * a.seed as usize) % poolq.vals.len()]).unwrap(), Fq::from_slice(&poolq.vals[(i * 53 + 11) % poolq.vals.len()]).unwrap());
+            if let Some(l) = fq2_inv(Fq2::new(pa, pb)) {
+                let mut n = G2::one() * rand_fr(&mut rng);
+                n.normalize();
+                let r = g2_scale(n, l);
+                let fmt = fmts[i % 3];
+                out.call("g.encode", json!({"G": "G2", "a": r.jac(), "fmt": fmt, "k": b(&[0u8; 32]), "negated": false, "anchor": false}), || {
+                    let e = r.enc(fmt);
+                    let d = <G2 as Grp>::dec(&e, fmt);
+                    outs! {"out" => b(&e), "dec" => opt_jac(d), "deceq" => Value::Bool(d.map(|x| x == r).unwrap_or(false))}
+                });
+            }
+        }
+        for z in inv_pattern_zs(&poolq, a.seed, if thorough { 900 } else { 300 }) {
+            let mut n = G1::one() * rand_fr(&mut rng);
+            n.normalize();
+            reps.push(g1_scale(n, z));
+        }
+        for (i, r) in reps.into_iter().enumerate() {
+            let fmt = fmts[i % 3];
             out.call("g.encode", json!({"G": "G1", "a": r.jac(), "fmt": fmt, "k": b(&[0u8; 32]), "negated": false, "anchor": false}), || {
                 let e = r.enc(fmt);
                 let d = <G1 as Grp>::dec(&e, fmt);
